@@ -499,6 +499,245 @@ Proof.
            (graph_wf_whole_function p tl Hp Hok) Hsf Hrun Hdet).
 Qed.
 
+(* ====================================================================== *)
+(* 5. the representation invariant itself: every value of the result is addr_wf *)
+(* ====================================================================== *)
+Section AddrWf.
+  Variable single : instr -> nat -> list sval -> sset * sset.
+  Hypothesis single_wf : forall op pos args, addr_wf (fst (single op pos args)) /\ addr_wf (snd (single op pos args)).
+  Variable f : func.
+
+  Definition st_wf (st : list (nat * sset)) : Prop := forall b v, Analysis.lookup sset st b = Some v -> addr_wf v.
+
+  Notation rstA := (SolverLemmas.rstep sset addr_universal_set addr_null_set addr_union addr_intersection single f).
+  Notation lstA := (SolverLemmas.lstep sset addr_union).
+
+  Lemma rfold_wf st xb : st_wf st -> forall ps a r,
+    fold_left (rstA st xb) ps (Some a) = Some r -> addr_wf a -> addr_wf r.
+  Proof.
+    intros Hst. induction ps as [|q ps IH]; intros a r H Ha.
+    - cbn [fold_left] in H. inversion H; subst. exact Ha.
+    - cbn [fold_left] in H.
+      destruct (rstA st xb (Some a) q) as [a'|] eqn:E; [|rewrite rfold_none in H; discriminate].
+      apply (IH a' r H). unfold SolverLemmas.rstep in E.
+      destruct (Analysis.lookup sset st q) as [ro|] eqn:El; [|discriminate].
+      destruct (fblock f q) as [pb|]; [|discriminate].
+      destruct (edge_constraint sset addr_universal_set addr_null_set addr_union addr_intersection single f pb (b_idx xb))
+        as [ec|] eqn:Ee; [|discriminate].
+      inversion E; subst a'. apply addr_union_wf; [exact Ha|].
+      apply addr_intersection_wf; [exact (Hst q ro El) | exact (edge_wf single single_wf f pb (b_idx xb) ec Ee)].
+  Qed.
+
+  Lemma reachin_wf st xb ri : st_wf st ->
+    Analysis.reachin sset addr_universal_set addr_null_set addr_union addr_intersection single f st xb = Some ri ->
+    addr_wf ri.
+  Proof.
+    intros Hst. rewrite reachin_unfold. intros H.
+    destruct (prev_global f xb) as [ps|]; [|discriminate].
+    destruct (fold_left (rstA st xb) ps _) as [acc|] eqn:F; [|discriminate].
+    assert (Hacc : addr_wf acc).
+    { apply (rfold_wf st xb Hst ps _ acc F).
+      destruct (Nat.eqb (b_idx xb) (fn_entry f)); [apply addr_universal_wf | apply addr_null_wf]. }
+    destruct (is_sub_return_point f xb).
+    - destruct (callsub_block_of f xb) as [c|]; [|discriminate].
+      destruct (Analysis.lookup sset st c) as [rc|] eqn:El; [|discriminate]. inversion H; subst ri.
+      apply addr_intersection_wf; [exact Hacc | exact (Hst c rc El)].
+    - inversion H; subst ri. exact Hacc.
+  Qed.
+
+  Lemma lfold_wf st : st_wf st -> forall nx a r,
+    fold_left (lstA st) nx (Some a) = Some r -> addr_wf a -> addr_wf r.
+  Proof.
+    intros Hst. induction nx as [|q nx IH]; intros a r H Ha.
+    - cbn [fold_left] in H. inversion H; subst. exact Ha.
+    - cbn [fold_left] in H.
+      destruct (lstA st (Some a) q) as [a'|] eqn:E; [|rewrite lfold_none in H; discriminate].
+      apply (IH a' r H). unfold SolverLemmas.lstep in E.
+      destruct (Analysis.lookup sset st q) as [lo|] eqn:El; [|discriminate].
+      inversion E; subst a'. apply addr_union_wf; [exact Ha | exact (Hst q lo El)].
+  Qed.
+
+  Lemma livein_wf st xb li : st_wf st ->
+    Analysis.livein sset addr_null_set addr_union addr_intersection f st xb = Some li -> addr_wf li.
+  Proof.
+    intros Hst. rewrite livein_unfold. intros H.
+    destruct (next_global f xb) as [nx|]; [|discriminate].
+    destruct (fold_left (lstA st) nx _) as [acc|] eqn:F; [|discriminate].
+    assert (Hacc : addr_wf acc) by exact (lfold_wf st Hst nx _ acc F addr_null_wf).
+    assert (Hdef : Some acc = Some li -> addr_wf li) by (intros E; inversion E; subst; exact Hacc).
+    destruct (fexit_op f xb) as [[]|]; auto.
+    destruct (sub_return_point xb) as [rp|]; auto.
+    destruct (f_find_sub f _) as [s|]; [|discriminate].
+    destruct (sub_retsub_blocks f s); auto.
+    destruct (Analysis.lookup sset st rp) as [lr|] eqn:El; [|discriminate]. inversion H; subst li.
+    apply addr_intersection_wf; [exact Hacc | exact (Hst rp lr El)].
+  Qed.
+
+  Lemma update_wf st b v old : st_wf st -> Analysis.lookup sset st b = Some old -> addr_wf v ->
+    st_wf (Analysis.update sset st b v).
+  Proof.
+    intros Hst Hold Hv b' w Hl. destruct (Nat.eq_dec b b') as [<-|Hne].
+    - rewrite (lookup_update_same sset st b v old Hold) in Hl. inversion Hl; subst w. exact Hv.
+    - rewrite lookup_update_other in Hl by exact Hne. exact (Hst b' w Hl).
+  Qed.
+
+  (* THE SOLVER PRESERVES addr_wf: constraints well formed => every value of the result is well formed *)
+  Theorem solve_addr_wf fuel bc lo : st_wf bc ->
+    solve sset sset_seteqb addr_universal_set addr_null_set addr_union addr_intersection single f fuel bc = Done lo ->
+    st_wf lo.
+  Proof.
+    intros Hbc Hs. apply solve_passes in Hs. destruct Hs as (ro & Hfw & Hbw).
+    assert (Hro : st_wf ro).
+    { apply (forward_state_ind sset sset_seteqb addr_universal_set addr_null_set addr_union addr_intersection single f
+               (Analysis.lookup sset bc) st_wf) with (fuel := fuel) (wl := forward_worklist f)
+               (st := SolverLemmas.fwd_st0 sset addr_null_set f); [| |exact Hfw].
+      - intros st b xb ri bcv old HP Hfb Hri Hb Hold _.
+        apply (update_wf st b _ old HP Hold). apply addr_intersection_wf; [exact (reachin_wf st xb ri HP Hri) | exact (Hbc b bcv Hb)].
+      - intros b v H. unfold SolverLemmas.fwd_st0 in H. rewrite lookup_map_blocks in H.
+        destruct (fblock f b); [|discriminate]. cbn [option_map] in H. inversion H; subst v. apply addr_null_wf. }
+    apply (backward_state_ind sset sset_seteqb addr_null_set addr_union addr_intersection f
+             (Analysis.lookup sset ro) st_wf) with (fuel := fuel) (wl := backward_worklist f)
+             (st := SolverLemmas.bwd_st0 sset addr_null_set f ro); [| |exact Hbw].
+    - intros st b xb li bcv old HP Hfb _ Hli Hb Hold _.
+      apply (update_wf st b _ old HP Hold). apply addr_intersection_wf; [exact (livein_wf st xb li HP Hli) | exact (Hro b bcv Hb)].
+    - intros b v H. unfold SolverLemmas.bwd_st0 in H. rewrite lookup_map_blocks in H.
+      destruct (fblock f b) as [xb|]; [|discriminate]. cbn [option_map] in H. inversion H; subst v.
+      destruct (leaf_global f xb); [|apply addr_null_wf].
+      destruct (Analysis.lookup sset ro (b_idx xb)) as [w|] eqn:E; [exact (Hro _ w E) | apply addr_null_wf].
+  Qed.
+
+  Lemma init_wf bc :
+    init_constraints sset addr_universal_set addr_null_set addr_union addr_intersection single f = Some bc -> st_wf bc.
+  Proof.
+    intros Hi b v Hl.
+    exact (init_constraints_closed sset addr_universal_set addr_null_set addr_union addr_intersection single addr_wf
+             addr_universal_wf addr_null_wf addr_union_wf addr_intersection_wf single_wf f bc b v Hi Hl).
+  Qed.
+End AddrWf.
+
+(* ... hence every value of every table of run_family over the address domain, in particular every RekeyTo value of
+   run_all that Detect.ctx_of reads *)
+Theorem run_family_addr_wf single f fuel indices res :
+  (forall fam op pos args, addr_wf (fst (single fam op pos args)) /\ addr_wf (snd (single fam op pos args))) ->
+  run_family f fuel sset_seteqb addr_universal_set addr_null_set addr_union addr_intersection single indices = Done res ->
+  forall fam l, In (fam, l) res -> st_wf l.
+Proof.
+  intros Hsw Hrun fam l Hin.
+  destruct (run_family_inv sset sset_seteqb addr_universal_set addr_null_set addr_union addr_intersection single
+              f fuel indices res Hrun) as (bc0 & base & rest & Hi0 & Hs0 & Hres & Hrest).
+  pose proof (solve_addr_wf (single KSelf) (Hsw KSelf) f fuel bc0 base (init_wf _ (Hsw KSelf) f bc0 Hi0) Hs0) as Hbase.
+  subst res. destruct Hin as [E|Hin]; [inversion E; subst; exact Hbase|].
+  destruct (Hrest fam l Hin) as (bcn & Hin' & Hsn).
+  apply (solve_addr_wf (single fam) (Hsw fam) f fuel _ l) in Hsn; [exact Hsn|].
+  pose proof (init_wf _ (Hsw fam) f bcn Hin') as Hbcn.
+  destruct fam as [|i|i|k]; try exact Hbcn.
+  intros b c Hc.
+  destruct (lookup_refine_at_inv addr_intersection addr_null_set indices base i bcn b c Hc) as (c0 & Hc0 & Ec).
+  destruct (zmem (Z.of_N i) _); subst c; [|apply addr_null_wf].
+  apply addr_intersection_wf; [exact (Hbcn b c0 Hc0)|].
+  destruct (Analysis.lookup sset base b) as [vb|] eqn:Eb; [exact (Hbase b vb Eb) | apply addr_null_wf].
+Qed.
+
+Theorem run_all_rekey_wf f fuel r : run_all f fuel = Done r -> forall fam b, addr_wf (res_addr r "RekeyTo" fam b).
+Proof.
+  intros Hrun fam b.
+  destruct (run_all_rekey_inv f fuel r Hrun) as (sizes & idx0 & rk & rest & _ & Hfam & Haddrs & Hrest).
+  rewrite (res_addr_fam_val r rk rest fam b Haddrs Hrest). unfold fam_val.
+  destruct (find (fun '(fm, _) => keyfam_eqb fm fam) rk) as [[fm l]|] eqn:Ef; [|apply addr_universal_wf].
+  destruct (find_some _ _ Ef) as [Hin _].
+  destruct (Analysis.lookup sset l b) as [v|] eqn:El; [|apply addr_universal_wf].
+  exact (run_family_addr_wf (fun fam0 => addr_single (fn_intcs f) fam0 "RekeyTo") f fuel (indices_of sizes idx0) rk
+           (fun fam0 => addr_single_wf (fn_intcs f) fam0 "RekeyTo") Hfam fm l Hin b v El).
+Qed.
+
+(* ====================================================================== *)
+(* 6. non-vacuity: parsed contracts on which all hypotheses are discharged  *)
+(* ====================================================================== *)
+Module WitnessRekey.
+  Import Witness.
+  (* A. a logic-sig that forbids rekeying on one branch only: both modes REPORT.
+        txn TypeEnum; int 1; ==; bnz pay; txn RekeyTo; global ZeroAddress; ==; assert; pay: int 1; return *)
+  Definition linesA : list string :=
+    ["#pragma version 6"; "txn TypeEnum"; "int 1"; "=="; "bnz pay"; "txn RekeyTo"; "global ZeroAddress"; "=="; "assert";
+     "pay:"; "int 1"; "return"].
+  Definition pA : prog := Eval vm_compute in prog_of linesA.
+  Definition tA : teal := Eval vm_compute in teal_of pA.
+  Definition fA : func := whole_function tA.
+  Definition rA : fn_result := Eval vm_compute in res_of fA.
+  (* B. a diamond that forbids rekeying on both arms, on one of them through `gtxn 0 RekeyTo` with the own index pinned
+        to 0 (an at-index key): both modes are SILENT *)
+  Definition linesB : list string :=
+    ["#pragma version 6"; "txn TypeEnum"; "int 1"; "=="; "bnz pay"; "txn RekeyTo"; "global ZeroAddress"; "=="; "assert";
+     "b done"; "pay:"; "gtxn 0 RekeyTo"; "global ZeroAddress"; "=="; "assert"; "txn GroupIndex"; "int 0"; "=="; "assert";
+     "done:"; "int 1"; "return"].
+  Definition pB : prog := Eval vm_compute in prog_of linesB.
+  Definition tB : teal := Eval vm_compute in teal_of pB.
+  Definition fB : func := whole_function tB.
+  Definition rB : fn_result := Eval vm_compute in res_of fB.
+
+  Lemma parsed :
+    (parse_program (unlines linesA) = Ok pA /\ parse_teal pA = Ok tA /\ struct_okb tA = true /\
+     subroutine_freeb fA = true /\ run_all fA 100 = Done rA) /\
+    (parse_program (unlines linesB) = Ok pB /\ parse_teal pB = Ok tB /\ struct_okb tB = true /\
+     subroutine_freeb fB = true /\ run_all fB 100 = Done rB).
+  Proof. repeat split; vm_compute; reflexivity. Qed.
+
+  Example rekey_both_report :
+    run_detector fA rA 100 "rekey-to" checks_rekey_to = Done [[0; 2]] /\
+    txn_vulnerable [(fA, rA)] checks_rekey_to "STATELESS" None [TL] TL = true.
+  Proof. split; vm_compute; reflexivity. Qed.
+  Example rekey_both_silent :
+    run_detector fB rB 100 "rekey-to" checks_rekey_to = Done [] /\
+    txn_vulnerable [(fB, rB)] checks_rekey_to "STATELESS" None [TL] TL = false.
+  Proof. split; vm_compute; reflexivity. Qed.
+  Example rekey_validated :
+    map (fun b => (b_idx b, validated_in_block rA checks_rekey_to None (b_idx b))) (fn_blocks fA) =
+      [(0, false); (2, false); (1, true)] /\
+    map (fun b => (b_idx b, validated_in_block rB checks_rekey_to None (b_idx b))) (fn_blocks fB) =
+      [(0, true); (2, true); (3, true); (1, true)].
+  Proof. split; vm_compute; reflexivity. Qed.
+
+  (* the theorem applied: every hypothesis of single_group_eq_contract_rekey_parsed is discharged on A and on B *)
+  Example rekey_eq_on_A ps :
+    run_detector fA rA 100 "rekey-to" checks_rekey_to = Done ps ->
+    (txn_vulnerable [(fA, rA)] checks_rekey_to "STATELESS" None [TL] TL = true <-> ps <> []).
+  Proof.
+    destruct parsed as ((_ & Hp & Hok & Hsf & Hrun) & _).
+    apply (single_group_eq_contract_rekey_parsed [(fA, rA)] "STATELESS" None TL 0 pA tA rA 100 100 ps Hp
+             (struct_okb_sound tA Hok) (subroutine_freeb_sound fA Hsf)
+             (or_introl (conj eq_refl eq_refl)) eq_refl eq_refl (eligible_stateless TL eq_refl) eq_refl Hrun).
+  Qed.
+  Example rekey_eq_on_B ps :
+    run_detector fB rB 100 "rekey-to" checks_rekey_to = Done ps ->
+    (txn_vulnerable [(fB, rB)] checks_rekey_to "STATELESS" None [TL] TL = true <-> ps <> []).
+  Proof.
+    destruct parsed as (_ & (_ & Hp & Hok & Hsf & Hrun)).
+    apply (single_group_eq_contract_rekey_parsed [(fB, rB)] "STATELESS" None TL 0 pB tB rB 100 100 ps Hp
+             (struct_okb_sound tB Hok) (subroutine_freeb_sound fB Hsf)
+             (or_introl (conj eq_refl eq_refl)) eq_refl eq_refl (eligible_stateless TL eq_refl) eq_refl Hrun).
+  Qed.
+  (* the path whose existence the theorem asserts for the unvalidated exit 2 of A ends there *)
+  Example rekey_path_on_A :
+    exists p, GoodPath fA (validated_in_block rA checks_rekey_to None) p /\ last p 0 = 2.
+  Proof.
+    destruct parsed as ((_ & Hp & Hok & Hsf & Hrun) & _).
+    apply (unvalidated_leaf_has_unvalidated_path_rekey fA 100 rA 2
+             (graph_wf_whole_function pA tA Hp (struct_okb_sound tA Hok)) (subroutine_freeb_sound fA Hsf) Hrun).
+    - exists (mkBlock 2 [9; 10; 11] [] [1; 0]). split; [vm_compute; auto|]. split; vm_compute; reflexivity.
+    - vm_compute. reflexivity.
+  Qed.
+  (* the values the detector reads on A: the universal set at the unvalidated blocks, the null set after the assert
+     (RekeyTo == ZeroAddress: no non-zero address is left); all well formed *)
+  Example rekey_values_on_A :
+    map (fun b => (b_idx b, res_addr rA "RekeyTo" KSelf (b_idx b))) (fn_blocks fA) =
+      [(0, addr_universal_set); (2, addr_universal_set); (1, addr_null_set)] /\
+    forall fam b, addr_wf (res_addr rA "RekeyTo" fam b).
+  Proof.
+    split; [vm_compute; reflexivity|].
+    destruct parsed as ((_ & _ & _ & _ & Hrun) & _). exact (run_all_rekey_wf fA 100 rA Hrun).
+  Qed.
+End WitnessRekey.
+
 Print Assumptions no_prime_point_on_raw_sets.
 Print Assumptions solve_any_strict.
 Print Assumptions solve_any_iff_live.
@@ -509,3 +748,9 @@ Print Assumptions unvalidated_leaf_has_unvalidated_path_rekey.
 Print Assumptions leaves_justified_rekey.
 Print Assumptions single_group_eq_contract_rekey.
 Print Assumptions single_group_eq_contract_rekey_parsed.
+Print Assumptions solve_addr_wf.
+Print Assumptions run_family_addr_wf.
+Print Assumptions run_all_rekey_wf.
+Print Assumptions WitnessRekey.rekey_eq_on_A.
+Print Assumptions WitnessRekey.rekey_eq_on_B.
+Print Assumptions WitnessRekey.rekey_path_on_A.
